@@ -2,7 +2,7 @@ SPECIFICATION Spec
 CONSTANTS
   MaxOutcomes = 3
   MaxBody = 1
-  MaxElems = 2
+  MaxElems = 1
   Lats = {0, 7}
   Gaps = {0, 3}
   Slack = {0}
